@@ -1,5 +1,216 @@
+import OpusModel.DecSkel
+import OpusModel.SilkPlcGains
 import Driver.Util
-/- Suite stub — replaced by the owner of this suite. -/
+/-
+  Suite `decskel` (C01 / C09): replay of one decoder call on the control skeleton.
+
+    decskel dec <fmt> <state> <data> <len> <frame_size> <fec> <oracle answers>
+        fmt    16 | 24 | f  (public entry points)   n0 | n1 (opus_decode_native, self_delimited 0/1)
+        state  Fs,ch,API_sampleRate,nChannelsAPI,nChannelsInternal,internalSampleRate,payloadSize_ms,
+               decode_gain,stream_channels,bandwidth,mode,prev_mode,frame_size,prev_redundancy,last_packet_duration
+        data   x<hex> | N (NULL)
+        oracle answers in call order, `;`-separated (`-` = none):
+               s:<silk_ret>:<nSamplesOut>:<ec_tell>   c:<celt_ret>   b:<bit>:<ec_tell>   u:<value>:<ec_tell>
+      → <ret> st=<state> po=<packet_offset> ev=<events>
+    decskel ms <Fs> <nb_streams> <data> <len> <frame_size> <ret:packet_offset;…>
+      → <ret> buf=<capacity of buf> calls=<s,len,frame_size,sd;…>
+    decskel reset <state>            → st=<state>
+    decskel gain <state> <value>     → <err> st=<state>
+    decskel init <Fs> <channels>     → st=<state> | BAD_ARG
+    decskel lbrr <data>              → opus_packet_has_lbrr as the skeleton predicts silk_Decode's LBRR flag
+    decskel plcgain <lossCnt> <voiced> <nb_subfr> <B0,..,B4> <randScale_Q14> <prevLTP_scale_Q14> <invGain_Q30>
+                                     → <B0',..,B4'> <randScale_Q14'>   (gain scalars after one concealed SILK frame)
+    decskel lossdur <loss_duration> <LM> → loss_duration'
+-/
 namespace Driver.SuiteDecSkel
-def handle (_ : List String) : String := "bad-op"
+open Opus Opus.Framing Opus.DecSkel Driver
+
+def parseState (s : String) : Option DecState :=
+  match parseIntList s with
+  | some [fs, ch, api, nca, nci, isr, ps, gain, sch, bw, mode, pm, fsz, pr, lpd] =>
+    some { Fs := fs, channels := ch,
+           dc := { nChannelsAPI := nca, nChannelsInternal := nci, API_sampleRate := api,
+                   internalSampleRate := isr, payloadSize_ms := ps },
+           decode_gain := gain, stream_channels := sch, bandwidth := bw, mode := mode, prev_mode := pm,
+           frame_size := fsz, prev_redundancy := pr, last_packet_duration := lpd }
+  | _ => none
+
+def stateStr (st : DecState) : String :=
+  intList [st.Fs, st.channels, st.dc.API_sampleRate, st.dc.nChannelsAPI, st.dc.nChannelsInternal,
+           st.dc.internalSampleRate, st.dc.payloadSize_ms, st.decode_gain, st.stream_channels, st.bandwidth,
+           st.mode, st.prev_mode, st.frame_size, st.prev_redundancy, st.last_packet_duration]
+
+def parseData (s : String) : Option (Option Bytes) :=
+  if s = "N" then some none else (parseHex s).map some
+
+/-- One recorded oracle answer: kind and up to three integers. -/
+structure Ans where
+  kind : Char
+  v : List Int
+
+def parseAns (s : String) : Option Ans :=
+  match s.splitOn ":" with
+  | k :: vs =>
+    match k.toList, vs.mapM (·.toInt?) with
+    | [c], some v => some { kind := c, v }
+    | _, _ => none
+  | _ => none
+
+def parseAnsList (s : String) : Option (List Ans) :=
+  if s = "-" then some [] else (s.splitOn ";").mapM parseAns
+
+/-- The oracle that replays the recorded answers (arguments are ignored: the C side already
+    asserted the contracts; a kind mismatch yields zeros and shows up in the event list). -/
+def oracleOf (l : List Ans) : Oracle :=
+  let arr := l.toArray
+  let get (k : Nat) (c : Char) (i : Nat) : Int :=
+    match arr[k]? with
+    | some a => if a.kind = c then a.v.getD i 0 else 0
+    | none => 0
+  { silk := fun k _ => (get k 's' 0, get k 's' 1, get k 's' 2),
+    celt := fun k _ => get k 'c' 0,
+    bit := fun k _ _ => (get k 'b' 0, get k 'b' 1),
+    uint := fun k _ _ => (get k 'u' 0, get k 'u' 1) }
+
+def bufStr : Buf → String
+  | .pcm => "P" | .silk => "S" | .trans => "T" | .red => "D"
+
+def ptrStr (p : Ptr) : String := s!"{bufStr p.buf}{p.off}/{p.cap}"
+
+def evStr : Ev → Option String
+  | .decInit off len => some s!"I{off},{len}"
+  | .silk a p ret n =>
+    some s!"S{a.payloadSize_ms},{a.internalSampleRate},{a.nChannelsInternal},{a.nChannelsAPI},{a.API_sampleRate},{a.lostFlag},{a.newPacketFlag}@{ptrStr p}={ret},{n}"
+  | .celt a p ret =>
+    let d := match a.dataOff with
+      | some o => toString o
+      | none => if a.site = 2 then "z" else "n"
+    some s!"C{d},{a.len},{a.frame_size},{if a.withDec then 1 else 0},{a.accum}@{ptrStr p}={ret}"
+  | .acc _ _ _ => none
+  | .silkReset => some "R"
+  | .clip p n ch => some s!"K{n},{ch}@{ptrStr p}"
+
+def evsStr (log : List Ev) : String :=
+  let l := log.reverse.filterMap evStr
+  if l.isEmpty then "-" else ";".intercalate l
+
+def retStr (v : Int) : String :=
+  if v ≥ 0 then s!"n={v}"
+  else if v = -1 then "BAD_ARG" else if v = -2 then "BUFFER_TOO_SMALL" else if v = -3 then "INTERNAL_ERROR"
+  else if v = -4 then "INVALID_PACKET" else if v = -5 then "UNIMPLEMENTED" else if v = -6 then "INVALID_STATE"
+  else if v = -7 then "ALLOC_FAIL" else "UNKNOWN_ERR"
+
+def outStr : Out Int → String
+  | .ret v => retStr v
+  | .abort => "ABORT"
+  | .hang => "HANG"
+
+def nativeStr (x : NativeOut) (showPo : Bool := false) : String :=
+  s!"{outStr x.ret} st={stateStr x.run.st} po={if showPo then toString x.packetOffset else "-"} ev={evsStr x.run.log}"
+
+def parseNatives (s : String) : Option (List (Int × Int)) :=
+  if s = "-" then some []
+  else (s.splitOn ";").mapM fun t =>
+    match (t.splitOn ":").mapM (·.toInt?) with
+    | some [a, b] => some (a, b)
+    | _ => none
+
+def msCallStr (c : MsCall) : String := s!"{c.s},{c.len},{c.frame_size},{if c.sd then 1 else 0}"
+
+/-- The C01/C09 predicate evaluated on what the IMPLEMENTATION answered to one decode call
+    (`decskel pred <fmt> <state> <data> <len> <frame_size> <fec> <impl ret> <impl last_packet_duration>`):
+    return-value range, documented error, announced duration (framing judged by the C06 parser spec),
+    exact concealment duration.  Used to classify a model/implementation disagreement. -/
+def predicate (fmt : String) (st : DecState) (data : Option Bytes) (len fsz fec : Int) (ret : String) (lpd : Int) : String :=
+  if ret = "SANITIZER" ∨ ret = "ABORT" ∨ ret = "TIMEOUT" ∨ ret = "SIGSEGV" then s!"VIOLATES the call ended with {ret}"
+  else
+    let n : Option Int := if ret.startsWith "n=" then (ret.drop 2).toString.toInt? else none
+    match n with
+    | none =>
+      if ret ≠ "BAD_ARG" ∧ ret ≠ "BUFFER_TOO_SMALL" ∧ ret ≠ "INVALID_PACKET" then s!"VIOLATES returned {ret}"
+      else if (data.isNone ∨ len = 0) ∧ (fec = 0 ∨ fec = 1) ∧ fsz > 0 ∧ fsz % (st.Fs / 400) = 0 then
+        s!"VIOLATES concealment of {fsz} samples (a multiple of 2.5 ms) returned {ret}"
+      else
+        match data with
+        | some bs =>
+          if len > 0 ∧ fec = 0 then
+            match parseImpl (fmt = "n1") (bs.take len.toNat) with
+            | .ok p =>
+              let ns : Int := p.count * samplesPerFrame p.toc st.Fs.toNat
+              if fsz ≥ ns ∧ fsz > 0 then s!"VIOLATES valid framing announcing {ns} samples with room for {fsz} returned {ret}" else "OK"
+            | _ => "OK"
+          else "OK"
+        | none => "OK"
+    | some n =>
+      if n ≤ 0 ∨ n > fsz then s!"VIOLATES returned {n} samples for frame_size {fsz}"
+      else if (data.isNone ∨ len = 0) then
+        if n ≠ fsz ∨ lpd ≠ fsz then s!"VIOLATES concealment of {fsz} samples returned {n}, last-packet-duration {lpd}" else "OK"
+      else if fec ≠ 0 then
+        if n ≠ fsz ∨ lpd ≠ fsz then s!"VIOLATES FEC request of {fsz} samples returned {n}, last-packet-duration {lpd}" else "OK"
+      else
+        match data with
+        | some bs =>
+          match parseImpl (fmt = "n1") (bs.take len.toNat) with
+          | .ok p =>
+            let ns : Int := p.count * samplesPerFrame p.toc st.Fs.toNat
+            if n ≠ ns ∨ lpd ≠ ns then s!"VIOLATES valid framing announcing {ns} samples returned {n}, last-packet-duration {lpd}" else "OK"
+          | _ => s!"VIOLATES a packet with invalid framing decoded to {n} samples"
+        | none => "OK"
+
+def handle : List String → String
+  | ["pred", fmt, st, data, len, fsz, fec, ret, lpd] =>
+    match parseState st, parseData data, parseInt len, parseInt fsz, parseInt fec, parseInt lpd with
+    | some st, some data, some len, some fsz, some fec, some lpd => predicate fmt st data len fsz fec ret lpd
+    | _, _, _, _, _, _ => "bad-op"
+  | ["dec", fmt, st, data, len, fsz, fec, ans] =>
+    match parseState st, parseData data, parseInt len, parseInt fsz, parseInt fec, parseAnsList ans with
+    | some st, some data, some len, some fsz, some fec, some ans =>
+      let o := oracleOf ans
+      let r : Run := { st, k := 0, log := [] }
+      if fmt = "16" then nativeStr (decodeApi o .i16 data len fsz fec r)
+      else if fmt = "24" then nativeStr (decodeApi o .i24 data len fsz fec r)
+      else if fmt = "f" then nativeStr (decodeApi o .f32 data len fsz fec r)
+      else if fmt = "n0" ∨ fmt = "n1" then
+        nativeStr (decodeNative o data len { buf := .pcm, off := 0, cap := fsz * st.channels } fsz fec (fmt = "n1") false r) true
+      else "bad-op"
+    | _, _, _, _, _, _ => "bad-op"
+  | ["ms", fs, ns, data, len, fsz, nat] =>
+    match parseInt fs, parseNat ns, parseData data, parseInt len, parseInt fsz, parseNatives nat with
+    | some fs, some ns, some data, some len, some fsz, some nat =>
+      let arr := nat.toArray
+      let (ret, calls, cap) := msDecode (fun k => arr.getD k (0, 0)) fs ns (data.getD []) len fsz
+      let cs := if calls.isEmpty then "-" else ";".intercalate (calls.map msCallStr)
+      s!"{retStr ret} buf={cap} calls={cs}"
+    | _, _, _, _, _, _ => "bad-op"
+  | ["reset", st] =>
+    match parseState st with
+    | some st => s!"st={stateStr (reset st)}"
+    | none => "bad-op"
+  | ["gain", st, v] =>
+    match parseState st, parseInt v with
+    | some st, some v => let (e, st') := setGain st v; s!"{if e = 0 then "OK" else retStr e} st={stateStr st'}"
+    | _, _ => "bad-op"
+  | ["init", fs, ch] =>
+    match parseInt fs, parseInt ch with
+    | some fs, some ch =>
+      match init fs ch with
+      | some st => s!"st={stateStr st}"
+      | none => "BAD_ARG"
+    | _, _ => "bad-op"
+  | ["lbrr", data] =>
+    match parseHex data with
+    | some bs => resStr toString (hasLbrr bs)
+    | none => "bad-op"
+  | ["plcgain", lossCnt, voiced, nbSubfr, bs, rs, plt, ig] =>
+    match parseInt lossCnt, parseInt voiced, parseNat nbSubfr, parseIntList bs, parseInt rs, parseInt plt, parseInt ig with
+    | some lc, some v, some nsf, some b, some rs, some plt, some ig =>
+      let g := Opus.SilkPlcGains.conceal lc (v ≠ 0) nsf b rs plt ig
+      s!"{intList g.1} {g.2}"
+    | _, _, _, _, _, _, _ => "bad-op"
+  | ["lossdur", ld, lm] =>
+    match parseInt ld, parseNat lm with
+    | some ld, some lm => toString (Opus.SilkPlcGains.celtLossStep ld lm)
+    | _, _ => "bad-op"
+  | _ => "bad-op"
+
 end Driver.SuiteDecSkel
